@@ -34,17 +34,18 @@ def main():
             name = prop + "/" + os.path.basename(p)
             t0 = time.time()
             env = dict(os.environ, VF_NO_EVIDENCE="1")
-            r = subprocess.run([os.path.join(HERE, "tools", "with_patch.sh"), p, os.path.join(HERE, "check"), prop, "--tier", tier],
-                               capture_output=True, text=True, env=env, cwd=HERE)
-            sigs = sorted(set(re.findall(r"signature=(\S+)", r.stdout)))
             meta = {}
             try:
                 suf = os.path.basename(p)[5:-5]
                 meta = json.load(open(os.path.join(d, "meta%s.json" % suf)))
             except Exception:
                 pass
+            check_prop = meta.get("check_with", prop)       # a change seeded against one property may be another property's to find
+            r = subprocess.run([os.path.join(HERE, "tools", "with_patch.sh"), p, os.path.join(HERE, "check"), check_prop, "--tier", tier],
+                               capture_output=True, text=True, env=env, cwd=HERE)
+            sigs = sorted(set(re.findall(r"signature=(\S+)", r.stdout)))
             results[name] = {"property": prop, "tier": tier, "exit": r.returncode, "detected": r.returncode == 1, "signatures": sigs[:8],
-                             "wall_s": round(time.time() - t0, 1), "needs": meta.get("needs", "")}
+                             "wall_s": round(time.time() - t0, 1), "needs": meta.get("needs", ""), "checked_with": check_prop}
             print("%-28s exit=%d detected=%s %s" % (name, r.returncode, r.returncode == 1, sigs[:3]), flush=True)
             if r.returncode not in (0, 1):
                 print(r.stdout[-800:], r.stderr[-1500:])
@@ -55,7 +56,7 @@ def main():
                  "| change | what it needs to manifest | tier | detected | signatures | wall s |\n|---|---|---|---|---|---|\n")
         for name in sorted(results):
             r = results[name]
-            fh.write("| %s | %s | %s | %s | %s | %s |\n" % (name, r.get("needs", "").replace("|", "/"), r["tier"], "yes" if r["detected"] else "NO (exit %d)" % r["exit"],
+            fh.write("| %s | %s | %s | %s | %s | %s |\n" % (name, r.get("needs", "").replace("|", "/"), r["tier"], ("yes" if r.get("checked_with", r["property"]) == r["property"] else "yes (by %s)" % r["checked_with"]) if r["detected"] else "NO (exit %d)" % r["exit"],
                                                       ", ".join(r["signatures"][:4]), r["wall_s"]))
     return 0
 
